@@ -539,7 +539,7 @@ func init() {
 	ms := time.Millisecond
 	reg("B-fifo-2p1c", "C01", 2, 3, "two producers (a batch of 2; two single Puts) vs one consumer reading and committing 4 values; cleaner running, cooldown 0", bFifo2p1c(0), defaultPolicy)
 	reg("B-fifo-2p1c-cd", "C01", 1, 2, "same with a 10ms cleaner cooldown (timer events)", bFifo2p1c(10*ms), defaultPolicy)
-	reg("B-fifo-late", "C01", 2, 3, "a consumer created while another consumer's commits let the cleaner shift the buffer", bFifoLate(0), defaultPolicy)
+	reg("B-fifo-late", "C01,C03", 2, 3, "a consumer created while another consumer's commits let the cleaner shift the buffer", bFifoLate(0), defaultPolicy)
 	reg("B-shared", "C02", 2, 3, "two goroutines sharing one consumer: Get Commit vs Get Rollback Get", bShared, defaultPolicy)
 	reg("B-txn", "C02,C03", 2, 3, "C1: G G R G C G R while C2 commits far ahead and the cleaner shifts underneath", bTxn, defaultPolicy)
 	reg("B-evict", "C03", 2, 3, "FixedBufferCleaner(2,1): lagging consumer with uncommitted reads vs fast consumer vs producer past max", bEvict, fixedPolicy(2, 1))
